@@ -53,6 +53,7 @@ pub fn build(id: &str, tier: Tier) -> Option<Check> {
             id: "C03",
             jobs: vec![
                 bfs(hub("c03-main", |h| { h.arm.c03 = true; h.with_rewards = true; h.budget = tier.pick(1, 2); h.seeds = if q { vec!["funded", "slashed", "rewarded"] } else { vec!["funded", "slashed", "slashed_unseen", "rewarded", "inflight"] }; }), tier.pick(4, 6), secs),
+                bfs(hub("c03-threshold-below-one", |h| { h.arm.c03 = true; h.peg_fee = "0.01"; h.threshold = "0.9"; h.seeds = vec!["slashed_unseen", "rewarded"]; h.with_withdraw = false; h.with_transfers = true; h.budget = 1; h.slash_fracs = vec![(1, 20)]; }), tier.pick(3, 5), secs),
                 bfs(hub("c03-pegfee-big", |h| { h.arm.c03 = true; h.peg_fee = "0.005"; h.big = true; h.bond_amounts = vec![1_000_000_000_000_000_000, 1]; h.seeds = vec!["slashed", "rewarded"]; h.with_withdraw = false; }), tier.pick(3, 5), secs),
             ],
             rule: "same exploration as C02 with C03's oracles: the State query is recomputed from totals/supplies/pending requests of the same state in every distinct state; every successful bond, bond-stSei, convert and batch-closing unbond is compared with the exact floor arithmetic; non-trivial = a transition that minted, converted or closed a batch".into(),
@@ -103,7 +104,7 @@ pub fn build(id: &str, tier: Tier) -> Option<Check> {
             ],
             rule: "every sequence of <= D unbond/withdraw/time-jump actions (plus bond/convert in the thorough tier) with <= F slashing-of-unbonding / bonded-slash / rogue-transfer deviations, for 2-3 users and both tokens; a narrow one-token 'dust group' scenario (amounts 1 and 100 at rate 0.9) goes deeper to put several batches, including zero-valued ones, into one release group; in every distinct state all users with matured claims withdraw on clones in every order; non-trivial = a release, a paid withdraw, or a probe state with matured claims".into(),
             assumptions: envelope(),
-            essential: vec!["c01_release_checked", "c01_withdraw_paid", "c01_probe_states_with_matured_claims", "c01_probe_multi_user_orders", "c01_release_multi_batch", "c01_release_with_zero_valued_batch", "c01_release_after_slash_or_rogue"],
+            essential: vec!["c01_group_settled", "c01_release_checked", "c01_withdraw_paid", "c01_probe_states_with_matured_claims", "c01_probe_multi_user_orders", "c01_release_multi_batch", "c01_release_with_zero_valued_batch", "c01_release_after_slash_or_rogue"],
         },
         "C07" => Check {
             id: "C07",
@@ -133,18 +134,19 @@ pub fn build(id: &str, tier: Tier) -> Option<Check> {
             jobs: vec![
                 bfs(hub("c09-exits", |h| { h.arm.c09 = true; h.with_rewards = true; h.with_transfers = true; h.budget = tier.pick(1, 2); h.slash_fracs = vec![(1, 10), (1, 2)]; h.seeds = if q { vec!["funded", "slashed", "inflight"] } else { vec!["funded", "slashed", "slashed_unseen", "inflight", "rewarded", "three_vals"] }; }), tier.pick(3, 5), secs),
                 bfs(hub("c09-long-history", |h| { h.arm.c09 = true; h.seeds = vec!["ten_batches"]; h.budget = 0; h.with_convert = false; h.bond_amounts = vec![100]; }), tier.pick(2, 3), secs),
+                bfs(ulc("c09-matured-claims", |h| { h.arm.c09 = true; h.seeds = vec!["two_inflight", "ten_batches"]; h.sym = false; h.amounts_abs = vec![3]; h.budget = 1; h.slash_vals = vec!["val1", "val2"]; h.unbonding_slash = vec![(1, 2), (1, 100)]; h.with_rogue = false; }), tier.pick(4, 6), secs),
                 bfs(hub("c09-pegfee", |h| { h.arm.c09 = true; h.peg_fee = "0.01"; h.seeds = vec!["slashed"]; h.budget = 1; }), tier.pick(3, 4), secs),
             ],
             rule: "in every distinct state of a hub-core exploration (bond, unbond, convert, withdraw, transfers, reward accrual and index updates, time, <= F slashing deviations incl. 50% slashes and full pool drains) a probe runs on clones: every holder unbonds one unit and its whole balance of each token; the whole-balance exit is continued (jump past the epoch, a fresh holder's one-unit unbond must close the batch, jump past the unbonding period, withdraw); and every user-facing transition (bond, unbond, convert, withdraw, slashing check, token transfer/send, reward claim) is re-executed under the 8 other swap/oracle stub-mode combinations (ok/fail/garbage) and must give the identical result, effects and post-state; non-trivial = a state with exit probes or a transition with stub-mode products".into(),
             assumptions: envelope(),
-            essential: vec!["c09_exit_probes", "c09_exit_completed", "c09_stub_mode_products"],
+            essential: vec!["c09_exit_probes", "c09_exit_completed", "c09_stub_mode_products", "c09_matured_claim_probes"],
         },
         "C10" => Check {
             id: "C10",
             jobs: {
                 let mut j: Vec<Box<dyn Runnable>> = crate::auth::OWNED
                     .iter()
-                    .map(|k| bfs(crate::auth::Auth { contract: k, seeds: vec!["fresh", "funded", "evolved"] }, tier.pick(4, 5), secs / 4.0))
+                    .map(|k| bfs(crate::auth::Auth { contract: k, seeds: vec!["fresh", "funded", "evolved", "no_airdrop_registry"] }, tier.pick(4, 5), secs / 4.0))
                     .collect();
                 j.push(bfs(crate::auth::Wiring, tier.pick(5, 7), secs / 4.0));
                 j
@@ -228,7 +230,7 @@ pub fn build(id: &str, tier: Tier) -> Option<Check> {
             ],
             rule: "hub-core exploration with AddValidator/RemoveValidator for val1 and val3 enabled in every state (pending rewards, in-flight batches, blocked redelegation after a previous removal, re-addition); every RemoveValidator by the owner is checked against the staking ledger; non-trivial = a removal checked".into(),
             assumptions: envelope(),
-            essential: vec!["c13_removal_checked", "c13_redelegation_checked", "c13_redelegation_blocked", "c13_last_validator"],
+            essential: vec!["c13_removal_checked", "c13_redelegation_checked", "c13_redelegation_blocked", "c13_last_validator", "c13_redelegations_followup_checked"],
         },
         "C18" => {
             let mut jobs = vec![];
@@ -264,7 +266,7 @@ pub fn build(id: &str, tier: Tier) -> Option<Check> {
                         h.with_withdraw = false;
                         h.bond_amounts = vec![100];
                         h.budget = 1;
-                        h.seeds = if q { vec!["funded", "inflight"] } else { vec!["funded", "inflight", "three_vals", "slashed_unseen"] };
+                        h.seeds = if q { vec!["funded", "inflight", "bsei_all_pending"] } else { vec!["funded", "inflight", "bsei_all_pending", "three_vals", "slashed_unseen"] };
                         h.reward_amounts = vec![("val1", USEI, 1000), ("val2", KUSD, 400), ("val1", USEI, 400_000_000_000_000_000), ("val2", USEI, 7), ("val1", KUSD, 19), ("val2", USEI, 1)];
                     }),
                     tier.pick(4, 5),
